@@ -163,6 +163,20 @@ func dumpAll(prog *ir.Program) map[string][]string {
 	return out
 }
 
+// duplicates checks the absolute half of "created exactly once": generic
+// instances and instantiation wrappers are memoised per (origin, type
+// arguments), so no two functions of that kind may share a key, in any
+// build including the serial reference. (Thunks and bound-method closures
+// are created per use site in this code base and are not subject to it.)
+func duplicates(dumps map[string][]string) (class, detail string) {
+	for _, k := range sortedKeys(dumps) {
+		if len(dumps[k]) > 1 && (strings.Contains(k, " | instance of ") || strings.Contains(k, " | instantiation wrapper of ")) {
+			return "function-created-more-than-once", fmt.Sprintf("%s exists %d times as distinct functions", k, len(dumps[k]))
+		}
+	}
+	return "", ""
+}
+
 func diffDumps(ref, got map[string][]string) (class, detail string) {
 	keys := map[string]bool{}
 	for k := range ref {
@@ -380,6 +394,9 @@ func execute(c Case, tapes *[][]uint32) batch.Result {
 		return batch.Result{Violation: &batch.Violation{Class: "step-bound", Detail: "serial reference build did not finish"}}
 	}
 	ref := dumpAll(rprog)
+	if cl, d := duplicates(ref); cl != "" {
+		return batch.Result{Violation: &batch.Violation{Class: cl, Detail: "serial reference build: " + d}}
+	}
 	nfn := 0
 	for _, l := range ref {
 		nfn += len(l)
@@ -526,7 +543,9 @@ func execute(c Case, tapes *[][]uint32) batch.Result {
 		}
 		if r.viol == nil {
 			got := dumpAll(prog)
-			if cl, d := diffDumps(ref, got); cl != "" {
+			if cl, d := duplicates(got); cl != "" {
+				r.fail(cl, "%s", d)
+			} else if cl, d := diffDumps(ref, got); cl != "" {
 				r.fail(cl, "%s", d)
 			} else {
 				// idempotence: building again changes nothing
